@@ -52,7 +52,7 @@ def mandatory_bins(tier):
     b = ["len_mod16_%d" % i for i in range(16)] + ["len_mod40_%d" % i for i in range(40)]
     b += ["trailing_zeros_%d" % z for z in (0, 1, 2, 15, 16, 17)]
     b += ["zero_components", "zero_comments", "io_stream", "io_path", "mac_on", "mac_off", "default_key", "key_ends_00", "declared_lt_len", "declared_1",
-          "desc_210_bytes", "desc_211_bytes_refused", "tag_order_not_sorted", "crlf_in_path_file", "all_zero_payload", "cross_mode_path_written_stream_read", "rewrite_after_in_place_mutation", "enc_tag_other_value_on_plain_component", "stream_positioned_after_other_content", "comment_with_unicode_line_boundary_character", "same_component_object_listed_twice", "write_and_read_by_concurrent_threads", "path_target_holds_an_older_longer_file", "default_text_encoding_is_ascii"]
+          "desc_210_bytes", "desc_211_bytes_refused", "tag_order_not_sorted", "crlf_in_path_file", "all_zero_payload", "cross_mode_path_written_stream_read", "rewrite_after_in_place_mutation", "enc_tag_other_value_on_plain_component", "stream_positioned_after_other_content", "comment_with_unicode_line_boundary_character", "same_component_object_listed_twice", "write_and_read_by_concurrent_threads", "path_target_holds_an_older_longer_file", "default_text_encoding_is_ascii", "components_given_as_tuple_or_iterator"]
     return b
 
 
@@ -99,6 +99,11 @@ def check_case(ns, ctx, case, key, scratch, modes=("stream", "path"), macs=(True
         obj = G.build_real(ns, case, explicit_len=(len(rp["key"]) + len(case.comps)) % 2 == 0)
         if dup:
             obj.components[-1] = obj.components[(len(case.comps) - 1) // 2]
+        elif len(case.comments) % 3 == 1:
+            # the component list handed to the constructor as a tuple / a one-shot iterator instead of a list
+            comps_ = list(obj.components)
+            obj = BF.Bf3File(dict(case.comments), tuple(comps_) if len(comps_) % 2 else iter(comps_))
+            ctx.bin("components_given_as_tuple_or_iterator")
         ctx.ev()
         path = None
         # ------------------------------------------------------------------ write
